@@ -681,6 +681,8 @@ def v_eq(a, b):
     if isinstance(a, (tuple, list)) and isinstance(b, (tuple, list)):
         if isinstance(a, tuple) != isinstance(b, tuple):
             return False
+        if a is b:
+            return True
         if len(a) != len(b):
             return False
         return z_and([v_eq(x, y) for x, y in zip(a, b)])
